@@ -90,8 +90,8 @@ def gen(rng, tier):
         nrep = {"quick": 3, "thorough": 40, "search": 3}[tier]
         for n in range(1, 10):
             f = _write_trees(d, n, "in%d.nw" % n)
-            for k in sorted(set([1, 2, 3, n - 1, n, n + 1, n + 3])):
-                if k < 1:
+            for k in sorted(set([0, 1, 2, 3, n - 1, n, n + 1, n + 3])):
+                if k < 0:
                     continue
                 for repl in (False, True):
                     for _ in range(nrep):
@@ -99,6 +99,14 @@ def gen(rng, tier):
                         argv = ["sample", "-i", f, "-n", str(k), "--seed", str(s)] + (["--replace"] if repl else [])
                         jobs.append((argv, d))
                         metas.append(("sample", n, k, repl, s))
+        # an empty input file
+        fe = os.path.join(d, "empty.nw")
+        open(fe, "w").close()
+        for k in (0, 2):
+            for repl in (False, True):
+                s = rng.randrange(1, 2**31)
+                jobs.append((["sample", "-i", fe, "-n", str(k), "--seed", str(s)] + (["--replace"] if repl else []), d))
+                metas.append(("sample", 0, k, repl, s))
         for i in range({"quick": 60, "thorough": 800, "search": 60}[tier]):
             t = g.tree(lo=5, hi=12, maxdeg=4, lenmode="all", supmode="none")
             tips = leaves(t)
@@ -107,8 +115,8 @@ def gen(rng, tier):
             if rev:
                 k = rng.choice([3, 4, n - 1, n, n + 2])
             else:
-                k = rng.randint(1, n - 3)
-            k = max(1, k)
+                k = rng.choice([0, n - 2, n, n + 1]) if rng.random() < 0.15 else rng.randint(1, n - 3)
+            k = max(0 if not rev else 1, k)
             s = rng.randrange(1, 2**31)
             f = os.path.join(d, "p%d.nw" % i)
             open(f, "w").write(newick(t) + "\n")
